@@ -28,7 +28,7 @@ TSPEC = "C02_CheckerTrace"
 FX_CONST = [("idpos", "FxIdPos"), ("negidx", "FxNegIdx"), ("empty", "FxEmpty"), ("extng", "FxExtNg"), ("extcmp", "FxExtCmp")]
 I_INVS = ["ImplRefines", "ExtRefines", "ImplNoGaps", "ImplGapsExact", "ComputeOnlyPlain"]
 SLICES = {"quick": ["f2", "k1", "b1"], "thorough": ["f3b", "f3", "f2x", "k2", "k0"]}
-NRANDOM = {"quick": 2000, "thorough": 60000}
+NRANDOM = {"quick": 2000, "thorough": 40000}
 REPS_PER_GROUP = 1
 
 
@@ -247,12 +247,20 @@ def run(rep, tier):
     # ---- code -> spec: every event judged by TLC
     all_events = read_events(allp)
     bad = corrupted(all_events)
-    sp = wd / "selftest.ndjson"
-    write_events(sp, [c for c, _ in bad])
-    with ThreadPoolExecutor(max_workers=2) as ex:
-        fv = ex.submit(validate_trace, TSPEC, allp, wd=wd / "tv", nchunks=3 if quick else 4)
-        fs = ex.submit(validate_trace, TSPEC, sp, wd=wd / "selftest_tv", nchunks=1)
-        v, sv = fv.result(), fs.result()
+    # the corrupted events of the binding self-test ride along in the same TLC runs (tids >= 10^7) and are split off again
+    with open(allp, "a") as out:
+        for c, _ in bad:
+            out.write(json.dumps(c, separators=(",", ":")) + "\n")
+    vall = validate_trace(TSPEC, allp, wd=wd / "tv", nchunks=2 if quick else 4)
+    st = lambda t: t >= 10 ** 7
+    sv = {"fails": [f for f in vall["fails"] if st(f["tid"])]}
+    v = dict(vall)
+    v["fails"] = [f for f in vall["fails"] if not st(f["tid"])]
+    v["nontrivial"] = [t for t in vall["nontrivial"] if not st(t)]
+    v["divergences"] = [t for t in vall["divergences"] if not st(t)]
+    v["info"] = [i for i in vall["info"] if not st(i["tid"])]
+    v["consumed"] = vall["consumed"] - len(bad)
+    require(v["consumed"] == len(all_events), "C02: %d events written, %d judged" % (len(all_events), v["consumed"]))
     # binding self-test: T must reject every corrupted event with the expected clause
     got = {f["tid"]: f["fail"] for f in sv["fails"]}
     for c, cl in bad:
@@ -288,7 +296,7 @@ def run(rep, tier):
     rep.notes["exercise"] = {"nontrivial_events": nt, "accepted_gap_free_2plus_items": acc_ng, "accepted_with_gaps": acc_gap,
                              "accepted_with_blocks": blocks, "accepted_with_gap_macro": macro_gap,
                              "extensions_installed_as_proved": inst, "extensions_reported_as_axiom": axi}
-    guards = [(nt >= (1200 if quick else 30000), "too few non-trivially examined events (%d)" % nt),
+    guards = [(nt >= (1200 if quick else 20000), "too few non-trivially examined events (%d)" % nt),
               (acc_ng >= 300 and acc_gap >= 200 and blocks >= 50 and macro_gap >= 20 and axi >= 1, "exercise too thin: %s" % rep.notes["exercise"]),
               (inst >= 100, "no extension was ever installed as proved"),
               (per_src.get("rnd", {}).get("nontrivial", 0) >= 0.3 * per_src.get("rnd", {}).get("events", 1), "random objects are mostly not examined")]
